@@ -99,3 +99,201 @@ def strip_ref(c):
     k, pl, pr = c
     pr = tuple(x for x in pr if x not in ("&", "*"))
     return (k, pl, pr)
+
+
+# ---------------------------------------------------------------------------------------------------
+class Taint:
+    """Flow-insensitive, field-insensitive forward taint over the locals of MIR bodies with
+    interprocedural summaries (return value tainted?) and closure-parameter propagation.
+
+    policy object:
+      source(call)            -> label or None         (call result becomes tainted)
+      source_stmt(fn, rv)     -> label or None         (rvalue is a source, e.g. pointer->int cast)
+      sanitizer(call)         -> bool                  (result is clean whatever the arguments)
+      sink(call, targs, T)    -> message or None       (called with the indices of tainted args)
+    """
+
+    def __init__(self, facts, policy, crates=("geo", "geo_types")):
+        self.F = facts
+        self.policy = policy
+        self.crates = crates
+        self.summ_ret = {}          # fn key -> label when the return value is tainted (without tainted params)
+        self.closure_params = {}    # closure key -> label
+        self.findings = []
+        self.sources = []
+
+    def run(self, extra_crates=()):
+        fns = [f for f in self.F.by_key.values() if f.crate in self.crates + tuple(extra_crates) and f.kind in ("Fn", "AssocFn", "Closure")]
+        changed = True
+        rounds = 0
+        while changed and rounds < 12:
+            rounds += 1
+            changed = False
+            self.findings = []
+            self.sources = []
+            for fn in fns:
+                r = self.analyse(fn)
+                if r and self.summ_ret.get(fn.key) != r:
+                    self.summ_ret[fn.key] = r
+                    changed = True
+            # closure params may have been discovered during the round
+            if self._closure_changed:
+                changed = True
+            self._closure_changed = False
+        return self.findings
+
+    _closure_changed = False
+
+    def root_of(self, ap, place):
+        k, pl, _ = ap.canon(place)
+        if k in ("arg", "local"):
+            return pl
+        if k == "call":
+            # result of a call: the local that received it
+            t = ap.fn.term(pl)
+            return t["dest"]["l"]
+        if k == "agg":
+            return pl[1]
+        return place["l"]
+
+    def analyse(self, fn):
+        pol = self.policy
+        ap = AccessPaths(fn)
+        tainted = {}     # root local -> label
+
+        def t_of_place(p):
+            r = self.root_of(ap, p)
+            if r in tainted:
+                return tainted[r]
+            if p["l"] in tainted:
+                return tainted[p["l"]]
+            for e in p["p"]:
+                if e[0] == "index" and e[1] in tainted:
+                    return tainted[e[1]]
+            return None
+
+        def t_of_op(op):
+            p = op_place(op)
+            return t_of_place(p) if p is not None else None
+
+        def taint_place(p, label):
+            ch = False
+            for l in {self.root_of(ap, p), p["l"]}:
+                if l not in tainted:
+                    tainted[l] = label
+                    ch = True
+            return ch
+
+        # closure bodies whose parameters were tainted by a caller
+        if fn.kind == "Closure" and fn.key in self.closure_params:
+            for i in range(2, fn.arg_count + 1):
+                tainted[i] = self.closure_params[fn.key]
+        if fn.kind == "Closure" and ("env:" + fn.key) in self.closure_params:
+            tainted[1] = self.closure_params["env:" + fn.key]
+
+        closure_of_local = {}
+        for bb, pl, rv, line in fn.all_assigns():
+            if rv[0] == "agg" and isinstance(rv[1], dict) and "closure" in rv[1] and not pl["p"]:
+                closure_of_local[pl["l"]] = (rv[1]["key"], rv[2])
+
+        findings = {}
+        changed = True
+        it = 0
+        while changed and it < 30:
+            it += 1
+            changed = False
+            for bb in fn.normal_blocks():
+                for st in fn.stmts(bb):
+                    if st[0] != "assign":
+                        continue
+                    pl, rv, line = st[1], st[2], st[3]
+                    lab = None
+                    s = pol.source_stmt(fn, rv) if hasattr(pol, "source_stmt") else None
+                    if s:
+                        lab = s
+                        self.sources.append((s, fn, line))
+                    else:
+                        ops = []
+                        if rv[0] == "use":
+                            ops = [rv[1]]
+                        elif rv[0] in ("ref", "rawptr"):
+                            lab = t_of_place(rv[2])
+                        elif rv[0] == "bin":
+                            ops = [rv[2], rv[3]]
+                        elif rv[0] in ("un", "cast"):
+                            ops = [rv[2]]
+                        elif rv[0] == "agg":
+                            ops = rv[2]
+                        elif rv[0] == "discr":
+                            lab = t_of_place(rv[1])
+                        elif rv[0] == "repeat":
+                            ops = [rv[1]]
+                        for o in ops:
+                            lab = lab or t_of_op(o)
+                        if lab and hasattr(pol, "stmt_blocks") and pol.stmt_blocks(fn, rv):
+                            lab = None
+                    if lab and taint_place(pl, lab):
+                        changed = True
+                t = fn.term(bb)
+                if t["k"] == "switch":
+                    continue
+                if t["k"] != "call":
+                    continue
+                from .facts import Call
+                c = Call(fn, bb, t)
+                targs = [i for i, a in enumerate(c.args) if t_of_op(a)]
+                lab = None
+                src = pol.source(c)
+                if src:
+                    lab = src
+                    self.sources.append((src, fn, c.line))
+                elif pol.sanitizer(c):
+                    lab = None
+                else:
+                    if targs:
+                        lab = t_of_op(c.args[targs[0]])
+                    # callee summary
+                    r = c.raw["func"].get("fn", {}).get("resolved")
+                    if r and r["key"] in self.summ_ret:
+                        lab = lab or self.summ_ret[r["key"]]
+                if targs:
+                    msg = pol.sink(c, targs, self)
+                    if msg:
+                        findings[(fn.key, bb)] = (fn, c, msg, t_of_op(c.args[targs[0]]))
+                    # closures handed a tainted stream: their parameters are tainted
+                    for i, a in enumerate(c.args):
+                        p = op_place(a)
+                        if p is None or i in targs:
+                            continue
+                        ck = closure_of_local.get(self.root_of(ap, p)) or closure_of_local.get(p["l"])
+                        if ck and ck[0] not in self.closure_params:
+                            self.closure_params[ck[0]] = t_of_op(c.args[targs[0]])
+                            self._closure_changed = True
+                    # &mut arguments may receive tainted data
+                    if not pol.sanitizer(c):
+                        for i, (a, ty) in enumerate(zip(c.args, c.raw.get("arg_tys", []))):
+                            if i not in targs and ty.startswith("&mut"):
+                                p = op_place(a)
+                                if p is not None and pol.taints_mut_arg(c, i):
+                                    if taint_place(p, t_of_op(c.args[targs[0]])):
+                                        changed = True
+                # closures capturing tainted locals
+                for i, a in enumerate(c.args):
+                    p = op_place(a)
+                    if p is None:
+                        continue
+                    ck = closure_of_local.get(self.root_of(ap, p)) or closure_of_local.get(p["l"])
+                    if ck:
+                        caplab = None
+                        for o in ck[1]:
+                            caplab = caplab or t_of_op(o)
+                        if caplab and ("env:" + ck[0]) not in self.closure_params:
+                            self.closure_params["env:" + ck[0]] = caplab
+                            self._closure_changed = True
+                if lab and taint_place(t["dest"], lab):
+                    changed = True
+        for v in findings.values():
+            self.findings.append(v)
+        if fn.kind == "Closure" and (fn.key in self.closure_params or ("env:" + fn.key) in self.closure_params):
+            return None      # closure results are accounted for at the adaptor call
+        return tainted.get(0)
